@@ -91,7 +91,10 @@ func (p *Pool) get() (*proc, error) {
 }
 
 // Run executes one request.
-func (p *Pool) Run(req Req) (Resp, error) {
+func (p *Pool) Run(req Req) (Resp, error) { return p.RunTimeout(req, p.Timeout) }
+
+// RunTimeout executes one request with its own deadline.
+func (p *Pool) RunTimeout(req Req, timeout time.Duration) (Resp, error) {
 	p.sem <- struct{}{}
 	defer func() { <-p.sem }()
 	w, err := p.get()
@@ -136,7 +139,7 @@ func (p *Pool) Run(req Req) (Resp, error) {
 			return r.r, fmt.Errorf("runner error: %s", r.r.Error)
 		}
 		return r.r, nil
-	case <-time.After(p.Timeout):
+	case <-time.After(timeout):
 		w.cmd.Process.Kill()
 		w.cmd.Wait()
 		return Resp{End: "timeout"}, nil
